@@ -36,6 +36,7 @@ import EtkVerif.Asm.Corollaries
 import EtkVerif.Asm.ErrorKinds
 import EtkVerif.Asm.ErrorKinds2
 import EtkVerif.Asm.ErrorKinds4
+import EtkVerif.Asm.ErrorKinds5
 namespace EtkVerif.C13
 open Asm
 
@@ -226,6 +227,25 @@ theorem C13_error_undeclared_variable (rnd : Nat → Nat) (fuel k : Nat) (ops : 
     ∃ (sub : RawOps) (o : AOp), SubScope sub ops ∧ RawOp.op o ∈ sub.toList ∧
       (o.mentionsVar v = true ∨ o.declaresParam v = true) :=
   undeclaredVariable_provenance rnd fuel k ops v h
+
+/-- `DivisionByZero`: the text of some scope contains a division (operand, invocation argument, or body of one of its
+macro definitions) -/
+theorem C13_error_division_by_zero (rnd : Nat → Nat) (fuel k : Nat) (ops : RawOps)
+    (h : assemble rnd fuel { fresh := k } ops = .error .divisionByZero) :
+    ∃ (sub : RawOps) (o : AOp), SubScope sub ops ∧ RawOp.op o ∈ sub.toList ∧ o.hasDivision = true :=
+  divisionByZero_use rnd fuel k ops h
+
+/-- `DuplicateLabel l`: in some scope the label `l` is written twice — two label statements `l:` at the scope's top level,
+or two inside the body of one of its instruction macros — or `l` is a mangled name `macro_label_suffix` (two expansions
+drew the same suffix, or a user label collides with a mangled one) -/
+theorem C13_error_duplicate_label (rnd : Nat → Nat) (fuel k : Nat) (ops : RawOps) (l : String)
+    (h : assemble rnd fuel { fresh := k } ops = .error (.duplicateLabel l)) :
+    ∃ (sub : RawOps) (ms : List (String × MacroDef)),
+      SubScope sub ops ∧ declareMacros sub.toList [] = .ok ms ∧
+      (2 ≤ (sub.toList.filter (fun r => match r with | .op o => o.isLabel l | _ => false)).length ∨
+       (∃ n ps body, lookupMacro ms n = some (.instr ps body) ∧ 2 ≤ (body.filter (fun o => o.isLabel l)).length) ∨
+       IsMangled rnd l) :=
+  duplicateLabel_use rnd fuel k ops l h
 
 /-! ### Finding D28 (repaired): too few arguments for an expression macro are an error even when the missing parameter
 is never read
